@@ -12,11 +12,11 @@ var (
 
 // WritePlan is the fault plan of a SimFile's write side.
 type WritePlan struct {
-	FailAtCall  int  // fail the k-th Write call (1-based); 0 = never
-	FailAtByte  int  // fail once this many bytes were accepted: the write that crosses it is short; <0 = never
-	Once        bool // fail only the first time the condition holds, then heal
-	fired       bool
-	ShortNoErr  bool // the crossing write returns n<len(p) with a nil error (illegal writer; not used by default)
+	FailAtCall int  // fail the k-th Write call (1-based); 0 = never
+	FailAtByte int  // fail once this many bytes were accepted: the write that crosses it is short; <0 = never
+	Once       bool // fail only the first time the condition holds, then heal
+	fired      bool
+	ShortNoErr bool // the crossing write returns n<len(p) with a nil error (illegal writer; not used by default)
 }
 
 // SimFile is the simulated disk file: an in-memory byte stream that records every write
@@ -72,13 +72,13 @@ func (f *SimFile) Boundaries() []int {
 // SimReader delivers a byte stream in seeded chunk sizes (legal io.Reader behaviour: any
 // n>0 up to len(p)), optionally failing or ending early.
 type SimReader struct {
-	data    []byte
-	pos     int
-	rng     *Rng
+	data     []byte
+	pos      int
+	rng      *Rng
 	maxChunk int // 0 = whatever the caller asks for
-	ErrAt   int // return errDiskRead once pos reaches this offset; <0 = never
-	Reads   int
-	Fired   int
+	ErrAt    int // return errDiskRead once pos reaches this offset; <0 = never
+	Reads    int
+	Fired    int
 }
 
 func NewSimReader(data []byte, rng *Rng, maxChunk int) *SimReader {
